@@ -29,7 +29,8 @@ def main():
     if r.violated:
         pv.log("INFRA: Truncation.tla design level violates its definition level")
         sys.exit(2)
-    base = [models.hubbard_atom(), models.dimer(), models.dimer(t=-4, U=16, eps=-8), models.spinless_chain(3), models.mixed_sites(), models.kanamori(), models.heisenberg_dimer()]
+    base = [models.hubbard_atom(), models.dimer(), models.dimer(t=-4, U=16, eps=-8), models.spinless_chain(3), models.mixed_sites(), models.kanamori(), models.heisenberg_dimer(),
+            models.decoupled(), models.decoupled(eps=(4, -8), U=8), models.shifted(models.decoupled(eps=(-4, 8)), 64)]
     for k in range(4 if not thorough else 40):
         base.append(models.random_model(rng, "rnd%d" % k, max_modes=4, allow_break=False))
     betas = ["2.0", "8.0", "40.0"] if not thorough else ["0.5", "2.0", "8.0", "40.0", "200.0"]
